@@ -50,7 +50,7 @@ func totalOrder(ids []string) bool {
 }
 
 func checkC10(c *vkit.Ctx) {
-	c.P.Rule = "case = generated program recorded once (bodies with blank lines, terminator-like and header-like lines, empty bodies; ids with numeric widths Test2/Test10, nested `/`, fuzz seed ids), stale entries planted, then TWO variants of the same directory that differ only in a random permutation of every file's entries; each variant: judged process (all live ids addressed) with Clean in a random mode (Sort on/off, UPDATE_SNAPS unset/clean/true/other), then the same process again; oracle: across the Clean rewrite every surviving entry keeps its raw body, none is dropped or duplicated; with Sort the ids are in natural order (maruel/natural as comparator, judged when the order is total) and both variants end byte-identical; a file needing neither pruning nor sorting keeps its backdated mtime; the second Clean writes nothing; non-trivial = some file has >=3 entries and is unsorted or holds a stale entry; distinct by hash(scenario, planted, permutations, mode)"
+	c.P.Rule = "case = generated program recorded once (bodies with blank lines, terminator-like and header-like lines, empty bodies; ids with numeric widths Test2/Test10, nested `/`, fuzz seed ids), stale entries planted, then TWO variants of the same directory that differ only in a random permutation of every file's entries; each variant: judged process (all live ids addressed) with Clean in a random mode (Sort on/off, UPDATE_SNAPS unset/clean/true/other), then the same process again; oracle: across the Clean rewrite every surviving entry keeps its raw body, none is dropped or duplicated; with Sort the ids are in natural order (maruel/natural as comparator, judged when the order is total) and both variants end byte-identical; a file needing neither pruning nor sorting keeps its backdated mtime; the second Clean writes nothing; every 8th case adds a table test with 80-120 snapshot files of its own and runs the judged processes under a 64-descriptor limit (prlimit): Clean works through files one at a time, so the limit must not change anything; one case in eight runs Clean as an unprivileged user with one read-only file; non-trivial = some file has >=3 entries and is unsorted or holds a stale entry; distinct by hash(scenario, planted, permutations, mode)"
 	c.P.Assumptions = []string{"maruel/natural.Less is the natural-order comparator (trusted base)"}
 	p, done := workerProgram(c, "")
 	defer done()
